@@ -1,7 +1,7 @@
 # shared by check / setup.sh: environment and the scratch-copy pipeline
 export GOFLAGS=-mod=mod GOPROXY=off GOSUMDB=off GOTOOLCHAIN=local
 export CGO_ENABLED=${CGO_ENABLED:-1}
-VERIF=/verif
+VERIF=${VERIF_HOME:-$(cd "$(dirname "${BASH_SOURCE[0]}")" && pwd)}
 REPO=${VERIF_REPO:-/repo}
 
 infra() { echo "INFRA: $*" >&2; exit 2; }
